@@ -275,7 +275,7 @@ impl Property for C06 {
             }
             match materialize(i, s, &dir, &tmp, &tz) {
                 Ok(m) => mats.push(m),
-                Err(e) => return Outcome::inconclusive(e),
+                Err(e) => return crate::sources::materialize_failed(e),
             }
         }
         let mut paths: Vec<std::path::PathBuf> = mats.iter().map(|m| m.path.clone()).collect();
